@@ -112,6 +112,13 @@ CLAIMED = {
             "Bounds: all 144 two-operator strings, unary/postfix variants, parenthesisations, whitespace/function-case renderings (quick); all 1728 three-operator strings and seed-sampled depth 4 (thorough); "
             "text len<=3 over all Unicode; the oracle is vf/refgrammar.py.",
             "DESIGN.md 4/C02"),
+    "C18": ("model_checking",
+            "astz3 (vf/kengine): the real code objects of _base2dec/_dec2base/_base2base executed on z3-backed integers, digit strings and arbitrary ASCII text; z3 decides each path",
+            "Round trip, two's complement rendering, places padding/#NUM!, direct = composition through decimal, and rejection of every text outside the alphabet are assertions over one "
+            "symbolic integer covering the whole range (+3 beyond each end), symbolic places and an 11-character text whose every character is a solver choice; only leaf built-ins are models.",
+            "Trusted: the int(text, base) grammar model (validated against CPython on every string up to length 3/4 over a critical alphabet), Numeral model of bin/oct/hex/str, single-bit mask arithmetic; "
+            "ints are mathematical integers (Python semantics).",
+            "DESIGN.md 4/C18"),
 }
 
 NOT_YET = "check not built yet in this round (machinery under construction); see DESIGN.md section 4"
